@@ -192,40 +192,49 @@ func (img *Image) PointMicro() int {
 	return sum1*16 + sum2
 }
 
+// longRunLengthCount is the rule N1: every run of five or more adjacent modules of
+// the same colour in a row or a column scores 3 + (length - 5).
 func (img *Image) longRunLengthCount() int {
 	var cnt int
-	for y := img.Rect.Min.Y; y < img.Rect.Max.Y; y++ {
-		var length int
-		c0 := img.BinaryAt(img.Rect.Min.X, y)
-		for x := img.Rect.Min.X; x < img.Rect.Max.X; x++ {
-			c := img.BinaryAt(x, y)
-			if c == c0 {
-				length++
-			} else {
-				if length >= 5 {
-					cnt += length - 5 + 3
-				}
-				c0 = c
-				length = 0
-			}
+	score := func(length int) int {
+		if length >= 5 {
+			return length - 5 + 3
 		}
+		return 0
 	}
 
-	for x := img.Rect.Min.Y; x < img.Rect.Max.Y; x++ {
-		var length int
-		c0 := img.BinaryAt(x, img.Rect.Min.X)
-		for y := img.Rect.Min.X; y < img.Rect.Max.X; y++ {
+	// rows
+	for y := img.Rect.Min.Y; y < img.Rect.Max.Y; y++ {
+		length := 0
+		c0 := White
+		for x := img.Rect.Min.X; x < img.Rect.Max.X; x++ {
 			c := img.BinaryAt(x, y)
-			if c == c0 {
+			if length > 0 && c == c0 {
 				length++
 			} else {
-				if length >= 5 {
-					cnt += length - 5 + 3
-				}
+				cnt += score(length)
 				c0 = c
-				length = 0
+				length = 1
 			}
 		}
+		cnt += score(length)
+	}
+
+	// columns
+	for x := img.Rect.Min.X; x < img.Rect.Max.X; x++ {
+		length := 0
+		c0 := White
+		for y := img.Rect.Min.Y; y < img.Rect.Max.Y; y++ {
+			c := img.BinaryAt(x, y)
+			if length > 0 && c == c0 {
+				length++
+			} else {
+				cnt += score(length)
+				c0 = c
+				length = 1
+			}
+		}
+		cnt += score(length)
 	}
 
 	return cnt
@@ -247,37 +256,39 @@ func (img *Image) blockCount() int {
 	return cnt * 3
 }
 
+// finderPattern is the rule N3: every occurrence of the 1:1:3:1:1 pattern
+// (dark, light, 3 dark, light, dark) in a row or a column that is preceded or
+// followed by four light modules scores 40. Modules outside the symbol are light.
 func (img *Image) finderPattern() int {
 	var cnt int
+	light4 := func(x, y, dx, dy int) bool {
+		for i := 0; i < 4; i++ {
+			if img.BinaryAt(x+i*dx, y+i*dy) {
+				return false
+			}
+		}
+		return true
+	}
+	match := func(x, y, dx, dy int) bool {
+		return bool(img.BinaryAt(x, y) &&
+			!img.BinaryAt(x+dx, y+dy) &&
+			img.BinaryAt(x+2*dx, y+2*dy) &&
+			img.BinaryAt(x+3*dx, y+3*dy) &&
+			img.BinaryAt(x+4*dx, y+4*dy) &&
+			!img.BinaryAt(x+5*dx, y+5*dy) &&
+			img.BinaryAt(x+6*dx, y+6*dy))
+	}
 	for y := img.Rect.Min.Y; y < img.Rect.Max.Y; y++ {
 		for x := img.Rect.Min.X; x < img.Rect.Max.X; x++ {
-			var c1, c2, c3, c4, c5, c6, c7 Color
-			c1 = img.BinaryAt(x, y-3)
-			c2 = img.BinaryAt(x, y-2)
-			c3 = img.BinaryAt(x, y-1)
-			c4 = img.BinaryAt(x, y)
-			c5 = img.BinaryAt(x, y+1)
-			c6 = img.BinaryAt(x, y+2)
-			c7 = img.BinaryAt(x, y+3)
-			if c1 && !c2 && c3 && c4 && c5 && !c6 && c7 {
-				c := !img.BinaryAt(x, y-4) && !img.BinaryAt(x, y-5) && !img.BinaryAt(x, y-6) && !img.BinaryAt(x, y-7)
-				c = c || !img.BinaryAt(x, y+4) && !img.BinaryAt(x, y+5) && !img.BinaryAt(x, y+6) && !img.BinaryAt(x, y+7)
-				if c {
+			// horizontal, starting at (x, y)
+			if x+6 < img.Rect.Max.X && match(x, y, 1, 0) {
+				if light4(x-4, y, 1, 0) || light4(x+7, y, 1, 0) {
 					cnt++
 				}
 			}
-
-			c1 = img.BinaryAt(x-3, y)
-			c2 = img.BinaryAt(x-2, y)
-			c3 = img.BinaryAt(x-1, y)
-			c4 = img.BinaryAt(x, y)
-			c5 = img.BinaryAt(x-1, y)
-			c6 = img.BinaryAt(x-2, y)
-			c7 = img.BinaryAt(x-3, y)
-			if c1 && !c2 && c3 && c4 && c5 && !c6 && c7 {
-				c := !img.BinaryAt(x-4, y) && !img.BinaryAt(x-5, y) && !img.BinaryAt(x-6, y) && !img.BinaryAt(x-7, y-7)
-				c = c || !img.BinaryAt(x+4, y) && !img.BinaryAt(x-5, y) && !img.BinaryAt(x+6, y) && !img.BinaryAt(x, y+7)
-				if c {
+			// vertical, starting at (x, y)
+			if y+6 < img.Rect.Max.Y && match(x, y, 0, 1) {
+				if light4(x, y-4, 0, 1) || light4(x, y+7, 0, 1) {
 					cnt++
 				}
 			}
